@@ -15,6 +15,7 @@ import (
 	"verif/harness/mimefam"
 	"verif/harness/pipeconn"
 	"verif/harness/rec"
+	"verif/harness/saslfam"
 	"verif/harness/session"
 )
 
@@ -156,6 +157,17 @@ func runOne(family string, j job, seed int64) result {
 			s.ID = fmt.Sprintf("L%06d", j.idx)
 		}
 		rn := &linefam.Runner{Sc: s, Rec: rec.New(), T: j.idx}
+		rn.Run()
+		return result{idx: j.idx, lines: rn.Rec.Lines(), infra: rn.Infra}
+	case "sasl":
+		var s saslfam.Scenario
+		if err := json.Unmarshal(j.line, &s); err != nil {
+			return result{idx: j.idx, infra: err}
+		}
+		if s.ID == "" {
+			s.ID = fmt.Sprintf("X%06d", j.idx)
+		}
+		rn := &saslfam.Runner{Sc: s, Rec: rec.New(), T: j.idx, TLSDir: session.TLSDir}
 		rn.Run()
 		return result{idx: j.idx, lines: rn.Rec.Lines(), infra: rn.Infra}
 	case "mime":
